@@ -70,6 +70,13 @@ func runLabels(raw json.RawMessage, impl any) []string {
 	if in.SpotToSpot {
 		l = append(l, "gate:spot-to-spot")
 	}
+	if len(in.Tables) > 0 {
+		l = append(l, fmt.Sprintf("pool-price-tables=%d", len(in.Tables)))
+		l = append(l, tableLabels(&in, cmd)...)
+	}
+	if in.MaxITs > 0 {
+		l = append(l, capLabels(&in, m)...)
+	}
 	if in.Scn.ReservedCapacity {
 		l = append(l, "reserved-catalog")
 	}
@@ -87,6 +94,100 @@ func runLabels(raw json.RawMessage, impl any) []string {
 	}
 	if c, _ := m["churned"].(bool); c && in.Churn != nil {
 		l = append(l, "churn:"+in.Churn.Kind)
+	}
+	return l
+}
+
+// tableLabels: how the per-NodePool price tables bear on the command.
+func tableLabels(in *RunIn, cmd map[string]any) []string {
+	if cmd == nil {
+		return nil
+	}
+	var l []string
+	poolOf := map[string]string{}
+	for _, n := range in.Scn.Nodes {
+		poolOf[n.Name] = n.Pool
+	}
+	price := func(its []world.IT, n world.Node) int64 {
+		for _, it := range its {
+			if it.Name != n.IT {
+				continue
+			}
+			for _, o := range it.Offerings {
+				if o.Zone == n.Zone && o.CapacityType == n.CapacityType {
+					return o.Price
+				}
+			}
+		}
+		return 0
+	}
+	tbl := map[string][]world.IT{}
+	for _, t := range in.Tables {
+		tbl[t.Pool] = t.ITs
+	}
+	cs, _ := cmd["cands"].([]any)
+	rp, _ := cmd["repl"].([]any)
+	replPool := ""
+	if len(rp) == 1 {
+		replPool, _ = rp[0].(map[string]any)["pool"].(string)
+	}
+	own, differs := false, false
+	for _, c := range cs {
+		name, _ := c.(map[string]any)["node"].(string)
+		for _, n := range in.Scn.Nodes {
+			if n.Name != name {
+				continue
+			}
+			if t, ok := tbl[n.Pool]; ok && price(t, n) != price(in.Scn.ITs, n) {
+				own = true
+			}
+			if replPool != "" && replPool != n.Pool {
+				differs = true
+			}
+		}
+	}
+	if own {
+		l = append(l, "cand-priced-by-own-table")
+	}
+	if differs {
+		l = append(l, "repl-pool-differs-from-cand-pool")
+	}
+	return l
+}
+
+// capLabels: what the launch cap did to the run's simulation (read off the harness's own re-simulation).
+func capLabels(in *RunIn, m map[string]any) []string {
+	l := []string{"launch-cap"}
+	if in.MaxITs <= len(in.Scn.ITs) {
+		l = append(l, "launch-cap<=catalog")
+	}
+	hasMin := false
+	for _, p := range in.Scn.Pools {
+		for _, e := range p.Reqs {
+			if e.MinValues != nil {
+				hasMin = true
+			}
+		}
+	}
+	if hasMin {
+		l = append(l, "launch-cap:minValues-pool")
+	}
+	if sim, _ := m["sim"].(map[string]any); sim != nil {
+		res, _ := sim["outcome"].(map[string]any)
+		errs, _ := res["errors"].(map[string]any)
+		for _, e := range errs {
+			if s, _ := e.(string); s != "" {
+				l = append(l, "launch-cap:sim-pod-error")
+				break
+			}
+		}
+		cl, _ := sim["claims"].([]any)
+		for _, c := range cl {
+			its, _ := c.(map[string]any)["its"].([]any)
+			if len(its) == in.MaxITs {
+				l = append(l, "launch-cap:claim-truncated-to-cap")
+			}
+		}
 	}
 	return l
 }
@@ -431,6 +532,40 @@ func Ops() []*core.Op {
 			Shrink:    shrinkRun,
 		},
 		emptyValidateOp(),
+		{
+			Name: "c06.tables",
+			Doc:  "the real SingleNodeConsolidation / MultiNodeConsolidation ComputeCommands (real validator, fake clock) on clusters with two or three NodePools that share a NodeClass but are charged different prices for the same offerings (per-NodePool price tables served by the provider's GetInstanceTypes(nodePool): the shape of a NodeOverlay or a provider discount that selects karpenter.sh/nodepool; adjustments of 20..200 % on all types, one capacity type, or half of the types). The specification prices every removed node at ITS NodePool's price and every permitted launch of the replacement at the REPLACEMENT NodePool's price; the model's candidates carry their own NodePool's offerings (Candidate.Price, filterOutSameInstanceType) and the compared Candidate.Price is the real one",
+			N:    func(t core.Tier) int { return map[core.Tier]int{core.Quick: 500, core.Thorough: 6000}[t] },
+			Gen:  func(r *rand.Rand, t core.Tier) any { return genOverlayRun(r, pick(r, "single", "single", "multi")) },
+			Impl: implRun,
+			Rule: "non-trivial = a command is produced on a cluster with per-NodePool price tables", Nontrivial: hasCmd,
+			Labels:    runLabels,
+			Signature: func(raw json.RawMessage, impl any) string { return "tables" },
+			Shrink:    shrinkRun,
+		},
+		{
+			Name: "c06.cap",
+			Doc:  "the real SingleNodeConsolidation / MultiNodeConsolidation ComputeCommands on catalogs with MORE compatible instance types than the launch cap (scheduling.MaxInstanceTypes, which the code keeps in a package variable for testing; set per run to 2..6, with a control above the catalog size and a corpus witness at the real 600) and NodePools with minValues on arch / instance type / zone: SimulateScheduling's Results.TruncateInstanceTypes cuts every new NodeClaim to the cheapest `cap` types and must report the pods of a NodeClaim that no longer meets minValues as unschedulable. Same specification (every reschedulable pod of a removed node has a placement in the command's simulation and an admissible home) and same model comparison as c06.single / c06.multi",
+			N:    func(t core.Tier) int { return map[core.Tier]int{core.Quick: 300, core.Thorough: 4000}[t] },
+			Gen:  func(r *rand.Rand, t core.Tier) any { return genCapRun(r, pick(r, "single", "single", "multi")) },
+			Impl: implRun,
+			Rule: "non-trivial = the harness's simulation of the evaluated candidates lost a NodeClaim to the cap (a pod error) or a command is produced",
+			Nontrivial: func(raw json.RawMessage, impl any) bool {
+				m, _ := impl.(map[string]any)
+				if m["cmd"] != nil {
+					return true
+				}
+				if sim, _ := m["sim"].(map[string]any); sim != nil {
+					res, _ := sim["outcome"].(map[string]any)
+					errs, _ := res["errors"].(map[string]any)
+					return len(errs) > 0
+				}
+				return false
+			},
+			Labels:    runLabels,
+			Signature: func(raw json.RawMessage, impl any) string { return "cap" },
+			Shrink:    shrinkRun,
+		},
 		{
 			Name: "c06.worst",
 			Doc:  "cloudprovider.Offerings.Compatible / Available().WorstLaunchPrice / WorstLaunchPrice / Cheapest / MostExpensive on generated offerings (spot / on-demand / reserved, price ties, unavailable) and requirements over capacity-type, zone and reservation-id (In, NotIn, Exists, DoesNotExist, Gt, empty sets)",
